@@ -290,6 +290,23 @@ def _pk(x):
     return pickle.loads(pickle.dumps(x))
 
 
+_PRNG_SEAM_OK = [True]
+
+
+def _probe_prng(stream):
+    """Is the simulator's stream really what Model.random_order draws from?  If the code under test reaches the PRNG
+    some other way, a random key is outside what a run controls ("random ordering keys excepted"): such calls are
+    then issued with the 'original' key instead, in the reference, the simulated phase and the workers alike."""
+    from penman.model import Model
+    n0 = stream.calls
+    try:
+        Model().random_order(':probe')
+    except Exception:
+        pass
+    _PRNG_SEAM_OK[0] = stream.calls > n0
+    return _PRNG_SEAM_OK[0]
+
+
 def run_op(w, op, local):
     """Execute one catalogue operation against world *w*.  Returns the raw result."""
     import penman
@@ -335,6 +352,8 @@ def run_op(w, op, local):
         return layout.configure(g, top=vs[op['a'] % len(vs)], model=model)
     if name == 'reconfigure':
         key = op.get('key')
+        if key == 'random' and not _PRNG_SEAM_OK[0]:
+            key = 'original'
         kf = None if key is None else getattr(model, key + '_order')
         # the simulator-owned constant PRNG stream is installed once per run (see execute):
         # installing it per call would be a process-global toggled by interleaved clients
@@ -639,7 +658,11 @@ def execute(trace):
     if levels[0] != levels[1]:
         res.hit('probe.reference_and_run_under_different_log_levels')
     try:
-        with simrandom.installed({'mode': 'constant'}):
+        with simrandom.installed({'mode': 'constant'}) as stream:
+            # is the simulator's stream really what Model.random_order draws from?  If the code reaches the PRNG some
+            # other way, calls with a random key are outside what this run controls ("random ordering keys excepted")
+            if not _probe_prng(stream):
+                res.hit('probe.prng_seam_bypassed')
             _execute(trace, cfg, clients, res, levels)
     finally:
         lg.removeHandler(handler)
@@ -935,7 +958,8 @@ def _child_run(args):
     world, ops = args
     out = {}
     local = {'iters': []}
-    with simrandom.installed({'mode': 'constant'}):     # a spawned interpreter starts with the real PRNG
+    with simrandom.installed({'mode': 'constant'}) as stream:     # a spawned interpreter starts with the real PRNG
+        _probe_prng(stream)
         for op in ops:
             out[op['id']] = result_canon(lambda: run_op(world, op, local))
     return out
